@@ -14,6 +14,8 @@ THEOREMS = [
     "CKT.C03.sum_markerFreq", "CKT.C03.layout_length", "CKT.C03.width_eq", "CKT.C03.layout_at_finalPos",
     "CKT.C03.layout_only_finalPos", "CKT.C03.basePos_succ", "CKT.C03.basePos_mono", "CKT.C03.transformGo_closed",
     "CKT.C03.posAfter_in_range", "CKT.C03.posAfter_injective", "CKT.C03.move_target_in_range",
+    # Props/C03Fresh: a Move's target is touched by no earlier output instruction, its source by no later one (the no-re-use shape C19 speaks about)
+    "CKT.C03.out_qubit_in_range", "CKT.C03.move_target_fresh", "CKT.C03.move_source_retired",
     # semantic half, for every pair of semantics obeying the four representation laws (C03Sem)
     "CKT.C03Sem.transformGo_rep", "CKT.C03Sem.transform_preserves_expectations", "CKT.C03Sem.classical",
     # the four laws proved for the Pauli-expectation semantics of dynamic circuits (any gate matrices; Move = reset; swap): T03.3 without assumed laws
